@@ -173,6 +173,19 @@ class Workspace:
             p = subprocess.run(cmd, capture_output=True, text=True)
             if p.returncode != 0:
                 return (u["unit"], None, p.stderr)
+        elif shape == "O0c":
+            # call-shaped: clang -O0 + mem2reg WITHOUT helper specialisation (for rules that reason per call)
+            cmd = [CLANG] + flags + ["-O0", "-Xclang", "-disable-O0-optnone", "-g",
+                                     "-fno-discard-value-names", "-S", "-emit-llvm",
+                                     u["file"], "-o", base + ".raw.ll", "-w"]
+            p = subprocess.run(cmd, capture_output=True, text=True)
+            if p.returncode != 0:
+                return (u["unit"], None, p.stderr)
+            p = subprocess.run([OPT, "-passes=mem2reg", "-S", base + ".raw.ll", "-o", ll],
+                               capture_output=True, text=True)
+            if p.returncode != 0:
+                return (u["unit"], None, p.stderr)
+            os.unlink(base + ".raw.ll")
         elif shape == "O0":
             cmd = [CLANG] + flags + ["-O0", "-Xclang", "-disable-O0-optnone", "-g",
                                      "-fno-discard-value-names", "-S", "-emit-llvm",
@@ -182,10 +195,20 @@ class Workspace:
                 return (u["unit"], None, p.stderr)
             # helper specialisation (tools/irspec.cc): pointer-returning accessors, drivers with indirect calls and
             # helpers behind trivial wrappers are inlined; a tree without such helpers passes through unchanged
-            p = subprocess.run([IRSPEC, base + ".raw.ll", base + ".spec.ll"], capture_output=True, text=True)
-            if p.returncode != 0:
-                return (u["unit"], None, "irspec: " + p.stderr)
-            self.spec_log.extend("%s: %s" % (u["unit"], l) for l in p.stderr.splitlines() if l.startswith("inline "))
+            # to a fixpoint (at most 3 rounds): a helper that only qualifies after another one was inlined into it
+            src_ll = base + ".raw.ll"
+            for rnd in range(3):
+                p = subprocess.run([IRSPEC, src_ll, base + ".spec.ll"], capture_output=True, text=True)
+                if p.returncode != 0:
+                    return (u["unit"], None, "irspec: " + p.stderr)
+                dec = [l for l in p.stderr.splitlines() if l.startswith(("inline ", "thread "))]
+                self.spec_log.extend("%s: %s" % (u["unit"], l) for l in p.stderr.splitlines() if l.startswith("inline "))
+                if not dec or rnd == 2:
+                    break
+                os.replace(base + ".spec.ll", base + ".spec0.ll")
+                src_ll = base + ".spec0.ll"
+            if os.path.exists(base + ".spec0.ll"):
+                os.unlink(base + ".spec0.ll")
             p = subprocess.run([OPT, "-passes=mem2reg", "-S", base + ".spec.ll", "-o", ll],
                                capture_output=True, text=True)
             if p.returncode != 0:
